@@ -505,10 +505,10 @@ func (r *ruleData) fromAuditRuleData(in *auditRuleData) error {
 			objectLevelHighField, pathField, dirField, subjectUserField,
 			subjectRoleField, subjectTypeField, subjectSensitivityField,
 			subjectClearanceField, keyField, exeField:
-			end := in.Values[i] + offset
-			if end > in.BufLen {
+			if in.Values[i] > in.BufLen-offset {
 				return fmt.Errorf("field %d overflows buffer", i)
 			}
+			end := in.Values[i] + offset
 			r.strings = append(r.strings, string(in.Buf[offset:end]))
 			offset = end
 		}
